@@ -96,6 +96,8 @@ var c03Setters = []string{
 	"{% tablerow y in (1..2) %}{{ y }}{% endtablerow %}",
 	"{% assign n = n | plus: 1 %}{{ n }}",
 	"{% for x in (1..2) %}{% cycle 'p', 'q' %}{% assign leak = x %}{% endfor %}",
+	"{% cycle 'a', 'b', 'c' %}",
+	"{% for x in (1..2) %}{{ forloop.index }}{% endfor %}{% cycle 'a', 'b' %}{{ forloop.length }}",
 }
 
 // VerifC03Shapes: the same for every shape of the caller's top-level map — nil, empty but
@@ -106,13 +108,19 @@ func VerifC03Shapes() {
 	src := c03Setters[nd.Choice(len(c03Setters))]
 	var b Bindings
 	want := 0
-	switch nd.Choice(3) {
+	var spoof map[string]int
+	switch nd.Choice(4) {
 	case 0:
 		b = nil
 	case 1:
 		b = Bindings{}
 	case 2:
 		b = Bindings{"n": nd.IntIn(-1, 1)}
+		want = 1
+	case 3:
+		// a caller-supplied value shaped like a loop record: it is data, not loop state
+		spoof = map[string]int{"": 1}
+		b = Bindings{"forloop": map[string]any{".cycles": spoof, "index": 7, "length": 9}}
 		want = 1
 	}
 	e := NewEngine()
@@ -127,7 +135,10 @@ func VerifC03Shapes() {
 	nd.Assert(len(b) == want, "bindings-size-unchanged")
 	for _, name := range []string{"zz", "cc", "leak", "x", "y", "forloop", "tablerowloop"} {
 		_, present := b[name]
-		nd.Assert(!present, "template-variables-do-not-leak")
+		nd.Assert(!present || (spoof != nil && name == "forloop"), "template-variables-do-not-leak")
+	}
+	if spoof != nil {
+		nd.Assert(len(spoof) == 1 && spoof[""] == 1, "caller-loop-record-unchanged")
 	}
 	out2, err2 := tpl.RenderString(b)
 	nd.Assert((err1 == nil) == (err2 == nil) && out1 == out2, "second-render-identical")
